@@ -546,6 +546,8 @@ func checkC14(res *Result) {
 	}
 
 	checkC14SSA(res)
+	res.Rule("C14-R5", "the JSON resolver finds a type named with a vocabulary alias whichever scheme (http / https) the document's @context spells the vocabulary with: toAliasMap registers every http(s) vocabulary under both spellings (shared with C01-R9)")
+	checkToAliasMapPairs(res, "C14-R5")
 
 	// ---- IsUnmatchedErr
 	if fd := funcs["IsUnmatchedErr"]; fd != nil {
